@@ -17,12 +17,12 @@ from koala.flux_finder import fluxes_from_ujk, fluxes_to_labels
 
 DRIVERS = ("c05",)
 MODEL_TARGETS = ["Model/Lattice.vo", "Model/Flux.vo"]
-TARGETS = ["Proofs/FluxFacts.vo"]
+TARGETS = ["Proofs/FluxFacts.vo", "Proofs/FluxLattice.vo"]
 LEVEL = "proof"
 TRUST = [
     "hand-written Gallina model coq/Model/Flux.v of flux_finder.fluxes_from_ujk / fluxes_to_labels (numpy fancy indexing, np.prod, complex arithmetic as Gaussian integers): modelled, not verified; tied to the code by the correspondence run (random u, and every u for E<=10/14)",
     "plaquettes come from coq/Model/Lattice.v (C01's model and trust items: exact angular predicates, margin skip < 1e-9)",
-    "C05_gauge_invariant assumes walk_consistent (each step leaves vertex i, arrives at vertex i+1, no self-loop edge) as a boolean hypothesis; it is evaluated by the extracted model on every plaquette the implementation returned (and is C01's closed-walk clause)",
+    "C05_gauge_invariant(_plaquette) take walk_consistent / plaq_consistent (each step leaves vertex i, arrives at vertex i+1, no self-loop edge) as a boolean hypothesis; it is PROVED for every plaquette of the model (C05_model_plaquette_consistent, from C01's lemmas in Proofs/LatticeFacts.v) and evaluated by the extracted model on every plaquette the implementation returned",
     "'plaquettes adjacent to an edge' is read as 'plaquettes whose edge list contains it' in C05_single_flip_local; equality with the non-INVALID entries of edges.adjacent_plaquettes[e] is checked on the implementation (S) and is C02's clause",
     "the gauge move and the bond flip are defined by the harness (u[vertices.adjacent_edges[v]] *= -1, u[e] *= -1 on a copy); compared with Flux.gauge / Flux.flip_at on small lattices",
 ]
@@ -311,6 +311,11 @@ def evaluate(ctx, cases, label, n_u=3, exhaustive_max=10, exhaustive_cap=None, m
         except LatticeException:
             res.skip("plaquette-finder-raised(C01)")
             continue
+        except Exception as e:
+            # fluxes_from_ujk(lattice, u) cannot be evaluated on a lattice of the input space
+            res.count(c["family"], key)
+            res.violation("fluxes-raise", f"accessing lattice.plaquettes (needed by fluxes_from_ujk) raises {type(e).__name__}: {e}", {"lattice": c})
+            continue
         if F == 0:
             res.skip("no-plaquette")
             continue
@@ -380,7 +385,11 @@ def evaluate(ctx, cases, label, n_u=3, exhaustive_max=10, exhaustive_cap=None, m
         for i, u in enumerate(us):
             cur_u[0] = u
             nv = len(res.violations)
-            fri = spec_one(lat, u, with_moves=(i == 0), rng=rng, max_moves=max_moves, res=res, viol=viol)
+            try:
+                fri = spec_one(lat, u, with_moves=(i == 0), rng=rng, max_moves=max_moves, res=res, viol=viol)
+            except Exception as e:
+                viol("fluxes-raise", f"fluxes_from_ujk / fluxes_to_labels raised {type(e).__name__}: {e}", {})
+                break
             if fri is None:
                 continue
             fc = np.asarray(fluxes_from_ujk(lat, u, real=False))
@@ -426,7 +435,11 @@ def evaluate(ctx, cases, label, n_u=3, exhaustive_max=10, exhaustive_cap=None, m
         if exh:
             ao = next(all_outs)
             cur_u[0] = us[0]
-            TR, TC = spec_exhaustive(lat, res, viol)
+            try:
+                TR, TC = spec_exhaustive(lat, res, viol)
+            except Exception as e:
+                viol("fluxes-raise", f"fluxes_from_ujk / fluxes_to_labels raised {type(e).__name__}: {e}", {})
+                TR = TC = None
             res.extra["exhaustive_u_lattices"] = res.extra.get("exhaustive_u_lattices", 0) + 1
             res.extra["exhaustive_u_configs"] = res.extra.get("exhaustive_u_configs", 0) + (1 << E)
             res.extra["exhaustive_u_max_E"] = max(res.extra.get("exhaustive_u_max_E", 0), E)
@@ -453,12 +466,28 @@ RULE = ("lattice families of DESIGN 1.5 (C01's input space) restricted to lattic
         "and every u in {-1,+1}^E with every gauge move and bond flip for E <= 10 (quick) / 14 (thorough); every counted lattice is non-trivial (has plaquettes)")
 
 
+def small_closed_cases(tier, seed):
+    """small periodic Voronoi lattices (N seeds: 2N vertices, 3N edges, N plaquettes when no face
+    winds around the torus) and their cuts: the lattices on which ALL u are enumerated"""
+    rng = np.random.default_rng([seed, 5])
+    out = []
+    sizes = [2, 3, 3, 3] if tier == "quick" else [2, 3, 3, 4, 4, 4]
+    for i in range(24 if tier == "quick" else 90):
+        n = sizes[i % len(sizes)]
+        b = {"family": "voronoi", "style": gen.POINT_STYLES[i % 4], "n": n, "seed": int(rng.integers(0, 2 ** 31)), "shift": bool(i % 2)}
+        out.append(b)
+        if i % 3 == 0:
+            out.append({"family": "cut", "base": b, "cut": [bool(i % 2), True]})
+    return out
+
+
 def run(ctx):
     ctx.res.rule = RULE
     cases = gen.lattice_cases(ctx.tier, ctx.seed)
     cases.append({"family": "raw", "positions": [[.25, .25], [.75, .25], [.25, .75], [.75, .75]],
                   "edges": [[0, 1], [1, 0], [2, 3], [3, 2], [0, 2], [2, 0], [1, 3], [3, 1]],
                   "crossing": [[0, 0], [1, 0], [0, 0], [1, 0], [0, 0], [0, 1], [0, 0], [0, 1]]})
+    cases += small_closed_cases(ctx.tier, ctx.seed)
     if ctx.tier == "quick":
         evaluate(ctx, cases, "K", n_u=3, exhaustive_max=10, max_moves=40)
     else:
